@@ -97,12 +97,123 @@ def rows_of(a):
     return [[qstr(x) for x in row] for row in a.tolist()]
 
 
-def mk_array(ncols, rows):
-    a = np.zeros((len(rows), ncols), dtype=float)
+def mk_array(ncols, rows, is_int=False):
+    a = np.zeros((len(rows), ncols), dtype=np.int64 if is_int else float)
     for i, r in enumerate(rows):
         for j, s in enumerate(r):
-            a[i, j] = float(Fraction(s))
+            a[i, j] = int(Fraction(s)) if is_int else float(Fraction(s))
     return a
+
+
+def np_json(r):
+    """a NumPy value that is not a cell (result of indexing INTO a cell array)"""
+    if isinstance(r, np.ndarray) and r.ndim == 2:
+        return {"a2": rows_of(r), "ncols": int(r.shape[1]), "int": r.dtype.kind == "i"}
+    if isinstance(r, np.ndarray) and r.ndim == 1:
+        return {"a1": [qstr(x) for x in r.tolist()], "int": r.dtype.kind == "i"}
+    if isinstance(r, np.generic):
+        return {"sc": qstr(r.item()), "int": r.dtype.kind == "i"}
+    return {"other": type(r).__name__}
+
+
+def tr(x):
+    """C cast float → int64 of a finite value: truncation toward zero"""
+    return Fraction(int(x))
+
+
+BIN = {"add": lambda x, y: x + y, "sub": lambda x, y: x - y, "mul": lambda x, y: x * y, "div": lambda x, y: x / y,
+       "floordiv": lambda x, y: Fraction((x / y).__floor__()), "mod": lambda x, y: x - y * (x / y).__floor__(),
+       "pow": lambda x, y: _pow(x, y)}
+
+
+class Inexact(Exception):
+    pass
+
+
+def _pow(x, y):
+    if y.denominator != 1:
+        raise Inexact()
+    return x ** int(y)
+
+
+def mats_of(arrays):
+    """id → [matrix of Fractions, is_int] for a dict id → (obj, copy) or an iterable of arrays"""
+    out = {}
+    items = arrays.items() if isinstance(arrays, dict) else ((id(a), (a, a)) for a in arrays)
+    for i, (_, old) in items:
+        if isinstance(old, np.ndarray) and old.ndim == 2:
+            out[i] = [[[Fraction(x) for x in row] for row in old.tolist()], old.dtype.kind == "i"]
+    return out
+
+
+def bc(n, ys):
+    if len(ys) == n:
+        return list(ys)
+    if len(ys) == 1:
+        return [ys[0]] * n
+    return None
+
+
+def representable(x, isint):
+    if isint:
+        return x.denominator == 1 and abs(x.numerator) < 1 << 40
+    d = x.denominator
+    return not (d & (d - 1)) and d <= 1 << 24 and abs(x.numerator) < 1 << 44
+
+
+def sim_field_op(mats, cells, j, k, rhs, neg_int_pow, rhs_cells=None, rhs_j=None, strict=False):
+    """pure-Python reference of `v[f] op= rhs` on exact rationals: cells visited in order, arrays written
+    through their identity (so an array that sits twice is updated twice); returns the error kind or None"""
+    g = BIN[k]
+    for c in cells:
+        if c is None:
+            continue
+        M, isint = mats[id(c)]
+        n = len(M)
+        if neg_int_pow and isint and n:
+            return "ValueError"
+        if "c" in rhs:
+            ys = [Fraction(rhs["c"])] * n
+        elif "arr" in rhs:
+            ys = bc(n, [Fraction(t) for t in rhs["arr"]])
+        else:
+            ys = bc(n, [row[rhs_j] for cc in rhs_cells if cc is not None for row in mats[id(cc)][0]])
+        if ys is None:
+            return "ValueError"
+        if strict and k == "pow" and "c" not in rhs and any(y not in (0, 1, 2) for y in ys):
+            raise Inexact()          # NumPy's vector pow() is only trusted on the exponents it special-cases
+        new = [g(M[i][j], ys[i]) for i in range(n)]
+        for i in range(n):
+            M[i][j] = tr(new[i]) if isint else new[i]
+            if strict and not (representable(M[i][j], isint) and (not isint or abs(new[i].denominator) < 1 << 20)):
+                raise Inexact()      # an intermediate value float64 would round (it may be read again through an alias)
+    return None
+
+
+def sim_set_flattened(mats, cells, j, xs):
+    cur = 0
+    for c in cells:
+        if c is None:
+            continue
+        M, isint = mats[id(c)]
+        for i in range(len(M)):
+            M[i][j] = tr(xs[cur + i]) if isint else xs[cur + i]
+        cur += len(M)
+
+
+def exact_ok(mats):
+    """every value survives float64 / int64 storage exactly (and stays far from any rounding boundary)"""
+    for M, isint in mats.values():
+        for row in M:
+            for x in row:
+                if isint:
+                    if x.denominator != 1 or abs(x.numerator) >= 1 << 40:
+                        return False
+                else:
+                    d = x.denominator
+                    if d & (d - 1) or d > 1 << 24 or abs(x.numerator) >= 1 << 44:
+                        return False
+    return True
 
 
 def _vector_cls():
@@ -174,6 +285,8 @@ def to_setval(w, j, nf):
 
 def to_item(w, j):
     if "lit" in j:
+        if j["lit"].get("int"):
+            return [[int(Fraction(s)) for s in r] for r in j["lit"]["rows"]]
         return [[float(Fraction(s)) for s in r] for r in j["lit"]["rows"]]
     if "lit1d" in j:
         return [1.0, 2.0]
@@ -191,7 +304,7 @@ def nest(items, lens):
 
 FOPS = {"add": lambda fv, c: fv.__iadd__(c), "sub": lambda fv, c: fv.__isub__(c), "mul": lambda fv, c: fv.__imul__(c),
         "div": lambda fv, c: fv.__itruediv__(c), "floordiv": lambda fv, c: fv.__ifloordiv__(c),
-        "mod": lambda fv, c: fv.__imod__(c)}
+        "mod": lambda fv, c: fv.__imod__(c), "pow": lambda fv, c: fv.__ipow__(c)}
 
 
 def resolvable(w, op):
@@ -212,7 +325,14 @@ def resolvable(w, op):
                 scan(x)
     scan(op.get("val"))
     scan(op.get("items"))
+    if "w" in (op.get("rhs") or {}):
+        refs.append(("v", op["rhs"]["w"]))
     return all((i < len(w.pool)) if k == "p" else (i < len(w.vecs)) for k, i in refs)
+
+
+def long_int_index(op, v):
+    nd = len(v.shape)
+    return len(op["idx"]) > nd and all("i" in ix for ix in op["idx"][:nd])
 
 
 def apply_real(w, op):
@@ -221,7 +341,7 @@ def apply_real(w, op):
     try:
         with contextlib.redirect_stdout(io.StringIO()):
             if k == "alloc":
-                w.pool.append(mk_array(op["ncols"], op["rows"]))
+                w.pool.append(mk_array(op["ncols"], op["rows"], op.get("int", False)))
                 return {"ok": {"arr": True}}
             if k == "from_shape":
                 v = Vector.from_shape(shape=tuple(op["shape"]), num_fields=op.get("num_fields"),
@@ -255,6 +375,8 @@ def apply_real(w, op):
                     if isinstance(r, Vector):
                         w.vecs.append(r)
                         return {"ok": {"vec": len(w.vecs) - 1}}
+                    if long_int_index(op, v):
+                        return {"ok": {"np": np_json(r)}}       # a row / element / block of the cell array, not a cell
                     if r is not None:
                         w.pool.append(r)
                     return {"ok": {"cell": r is not None}}
@@ -268,6 +390,31 @@ def apply_real(w, op):
                     fv = v[op["f"]]
                     v[op["f"]] = FOPS[op["k"]](fv, c)
                 return {"ok": None}
+            if k == "field_op_gen":
+                rhs = op["rhs"]
+                if "c" in rhs:
+                    other = int(Fraction(rhs["c"])) if rhs.get("c_int") else float(Fraction(rhs["c"]))
+                elif "arr" in rhs:
+                    other = np.array([float(Fraction(t)) for t in rhs["arr"]], dtype=float)
+                fv = v[op["f"]]
+                if "w" in rhs:
+                    other = w.vecs[rhs["w"]][rhs["wf"]]
+                if op.get("via") == "view":
+                    FOPS[op["k"]](fv, other)
+                else:
+                    v[op["f"]] = FOPS[op["k"]](fv, other)
+                return {"ok": None}
+            if k == "field_get":
+                idx = tuple(to_index(ix) for ix in op["idx"])
+                if len(idx) == 1 and op.get("bare"):
+                    idx = idx[0]
+                r = v[op["f"]][idx]
+                if type(r).__name__ == "_FieldView":
+                    w.vecs.append(r.vector)
+                    return {"ok": {"vec": len(w.vecs) - 1}}
+                if r is None:
+                    return {"ok": {"cell": False}}
+                return {"ok": {"np": np_json(r)}}
             if k == "set_flattened":
                 vals = op.get("vals")
                 x = np.array([float(Fraction(s)) for s in vals], dtype=float) if isinstance(vals, list) else np.zeros((2, 2))
@@ -442,6 +589,8 @@ def op_valid(w, before, op):
     k = op["op"]
     if k in ("alloc", "copy", "meta_set", "remove_fields"):
         return True
+    if k == "field_op_gen":
+        return op.get("expect") == "ok"       # the generator's exact simulation found no broadcasting / dtype error
     if k in ("writeback", "field_op", "set_flattened"):
         b = before["vecs"][op["v"]]
         if op["f"] not in b["fields"]:
@@ -457,8 +606,10 @@ def op_valid(w, before, op):
         b = before["vecs"][op["v"]]
         shape, nf = b["shape"], len(b["fields"])
         idx = op["idx"]
-        if len(idx) != len(shape):      # short index tuples: no claim that they must be accepted
+        if len(idx) != len(shape):      # short / over-long index tuples: no claim that they must be accepted
             return False
+        if len(shape) == 0 and k in ("setitem", "set_data"):
+            return False                # zero fixed dimensions are outside the property's quantifier (1..3)
         full = list(idx) + [{"s": [None, None, None]}] * (len(shape) - len(idx))
         if not all(ix_valid(ix, d) for ix, d in zip(full, shape)):
             return False
@@ -507,7 +658,10 @@ def check_op(ctx, w, before, op, res, case):
                       required="success (in-range non-empty index expression, well-formed values)")
     # ---- frame: which existing arrays may change their contents
     may_change = set()
-    if k in ("field_op", "set_flattened") and tgt < len(bv):
+    if k in ("field_op", "field_op_gen", "set_flattened") and tgt < len(bv):
+        may_change = {id(c) for c in bv[tgt]["cells"] if c is not None}
+    if k == "setitem" and tgt < len(bv) and len(op["idx"]) > len(bv[tgt]["shape"]):
+        # v[i, j, k] = row : writes INTO the addressed cell array
         may_change = {id(c) for c in bv[tgt]["cells"] if c is not None}
     for i, (a, old) in before["arrays"].items():
         if i in may_change:
@@ -532,6 +686,47 @@ def check_op(ctx, w, before, op, res, case):
         if not (mine and k == "meta_set") and a["meta_copy"] != b["meta_copy"]:
             ctx.pred_fail(f"metadata-leak:{k}", f"{k} on vector {tgt} changed the metadata of vector {vid} (shared mutable state)", case,
                           observed=a["meta_copy"], required=b["meta_copy"])
+    # ---- field arithmetic / set_flattened against the exact pure-Python reference (cells in order, arrays by identity)
+    if k in ("field_op", "field_op_gen", "set_flattened") and tgt < len(bv) and op["f"] in bv[tgt]["fields"]:
+        b = bv[tgt]
+        j = b["fields"].index(op["f"])
+        mats = mats_of(before["arrays"])
+        exp_err, skip = None, False
+        try:
+            if k == "set_flattened":
+                total = sum(c.shape[0] for c in b["cells"] if c is not None)
+                if isinstance(op["vals"], list) and len(op["vals"]) == total:
+                    sim_set_flattened(mats, b["cells"], j, [Fraction(t) for t in op["vals"]])
+                else:
+                    skip = True
+            else:
+                rhs = op["rhs"] if k == "field_op_gen" else {"c": op["c"]}
+                rc, rj = None, None
+                if "w" in rhs:
+                    ob = bv[rhs["w"]]
+                    if rhs["wf"] in ob["fields"]:
+                        rc, rj = ob["cells"], ob["fields"].index(rhs["wf"])
+                    else:
+                        skip = True
+                if not skip:
+                    exp_err = sim_field_op(mats, b["cells"], j, op["k"], rhs, op.get("neg_int_pow", False), rc, rj)
+        except (ZeroDivisionError, Inexact):
+            skip = True
+        if not skip:
+            if (exp_err or "ok") != res.get("err", "ok"):
+                ctx.pred_fail(f"field-outcome:{k}", f"{k} on field {op['f']!r}: outcome differs from the reference model", case,
+                              observed=res, required=exp_err or "ok")
+            else:
+                for i, (a, _) in before["arrays"].items():
+                    if i in mats and isinstance(a, np.ndarray) and a.ndim == 2:
+                        got = [[Fraction(x) for x in row] for row in a.tolist()]
+                        if got != mats[i][0]:
+                            col_only = all(g[:j] + g[j + 1:] == e[:j] + e[j + 1:] for g, e in zip(got, mats[i][0])) if len(got) == len(mats[i][0]) else False
+                            ctx.pred_fail(f"field-values:{k}" if col_only else f"field-other-columns:{k}",
+                                          f"{k} on field {op['f']!r} did not produce the reference values"
+                                          + ("" if col_only else " (a column other than the selected one, or the row count, changed)"),
+                                          case, observed=[[fstr(x) for x in r] for r in got], required=[[fstr(x) for x in r] for r in mats[i][0]])
+                            break
     if not okres:
         return True
     # ---- creation
@@ -565,7 +760,7 @@ def check_op(ctx, w, before, op, res, case):
                               observed=[n["shape"], n["fields"], n["units"]], required=[s["shape"], s["fields"], s["units"]])
             else:
                 for i, (c, o) in enumerate(zip(n["cells"], s["cells"])):
-                    if (c is None) != (o is None) or (c is not None and (c.shape != o.shape or not np.array_equal(c, o))):
+                    if (c is None) != (o is None) or (c is not None and (c.shape != o.shape or c.dtype != o.dtype or not np.array_equal(c, o))):
                         ctx.pred_fail("copy-values", "copy does not hold the same data as the source", case,
                                       observed={"cell": i, "copy": None if c is None else c.tolist()}, required=None if o is None else o.tolist())
                         break
@@ -574,7 +769,7 @@ def check_op(ctx, w, before, op, res, case):
                                       observed={"cell": i}, required="fresh arrays")
                         break
     # ---- retrieval: the addressed cells, by identity
-    if k in ("getitem", "get_data"):
+    if k in ("getitem", "get_data") and len(op["idx"]) <= len(bv[tgt]["shape"]):
         b = bv[tgt]
         want = addressed(b["cells"], b["shape"], op["idx"])
         if want is not None:
@@ -597,7 +792,7 @@ def check_op(ctx, w, before, op, res, case):
                     ctx.pred_fail(f"slice-cells:{k}:{nd}", "single-cell retrieval did not return the addressed cell", case,
                                   observed=describe(got), required=describe(exp))
     # ---- assignment: exactly the addressed cells now hold the given arrays
-    if k in ("setitem", "set_data"):
+    if k in ("setitem", "set_data") and len(op["idx"]) <= len(bv[tgt]["shape"]):
         b = bv[tgt]
         want = addressed(b["cells"], b["shape"], op["idx"])
         if want is not None:
@@ -622,34 +817,6 @@ def check_op(ctx, w, before, op, res, case):
         if len(got) != len(exp) or any(e is not None and g is not e for g, e in zip(got, exp)):
             ctx.pred_fail("data-setter-cells", "`v.data = …` did not store the given arrays cell by cell", case,
                           observed=describe(got), required=describe(exp))
-    # ---- field arithmetic / set_flattened against per-cell reference values
-    if k in ("field_op", "set_flattened") and op["f"] in bv[tgt]["fields"]:
-        b = bv[tgt]
-        j = b["fields"].index(op["f"])
-        pop = [c for c in b["cells"] if c is not None]
-        distinct = len({id(c) for c in pop}) == len(pop)
-        old = [before["arrays"][id(c)][1] for c in pop]
-        if distinct:
-            if k == "field_op":
-                c0 = Fraction(op["c"])
-                f = {"add": lambda x: x + c0, "sub": lambda x: x - c0, "mul": lambda x: x * c0, "div": lambda x: x / c0,
-                     "floordiv": lambda x: Fraction((x / c0).__floor__()), "mod": lambda x: x - c0 * (x / c0).__floor__()}[op["k"]]
-                newcol = [[f(Fraction(float(x))) for x in o[:, j]] for o in old]
-            else:
-                xs = [Fraction(s) for s in op["vals"]]
-                newcol, cur = [], 0
-                for o in old:
-                    newcol.append(xs[cur:cur + o.shape[0]])
-                    cur += o.shape[0]
-            for c, o, col in zip(pop, old, newcol):
-                exp = [[Fraction(float(x)) for x in row] for row in o]
-                for i in range(len(exp)):
-                    exp[i][j] = col[i]
-                got = [[Fraction(float(x)) for x in row] for row in c]
-                if got != exp:
-                    ctx.pred_fail(f"field-values:{k}", f"{k} on field {op['f']!r} did not produce the per-cell reference values", case,
-                                  observed=[[fstr(x) for x in r] for r in got], required=[[fstr(x) for x in r] for r in exp])
-                    break
     # ---- add / remove fields
     if k in ("add_fields", "remove_fields"):
         b, a = bv[tgt], av[tgt]
@@ -739,10 +906,14 @@ def compare_state(ctx, tie, w, mobs, case, note):
         flat = [[qstr(x) for x in np.asarray(v[f].flatten()).tolist()] for f in v.fields]
         if mv["flat"] != flat:
             return bad(f"vec{vid}.flatten(field)", mv["flat"], flat)
-        allr = rows_of(np.asarray(v.flatten()))
+        fa = np.asarray(v.flatten())
+        allr = rows_of(fa)
         if mv["all"] != allr:
             return bad(f"vec{vid}.flatten()", mv["all"], allr)
-    for r, ncols, rows in mobs["heap"]:
+        kinds = [fa.dtype.kind == "i"] + [np.asarray(v[f].flatten()).dtype.kind == "i" for f in v.fields]
+        if any(kd != mv["flat_int"] for kd in kinds):
+            return bad(f"vec{vid}.flatten dtype is int64", mv["flat_int"], kinds)
+    for r, ncols, rows, is_int in mobs["heap"]:
         o = tie.m2r.get(r)
         if o is None:
             return bad(f"heap[{r}]", "reachable", "no real object")
@@ -750,6 +921,8 @@ def compare_state(ctx, tie, w, mobs, case, note):
             return bad(f"heap[{r}].ndim", 2, getattr(o, "shape", None))
         if o.shape[1] != ncols or rows_of(o) != rows:
             return bad(f"heap[{r}] values", {"ncols": ncols, "rows": rows}, {"ncols": o.shape[1], "rows": rows_of(o)})
+        if (o.dtype.kind == "i") != is_int or o.dtype.kind not in "if":
+            return bad(f"heap[{r}] dtype is int64", is_int, str(o.dtype))
     return True
 
 
@@ -760,9 +933,25 @@ def q(rng):
     return fstr(Fraction(rng.randint(-32, 32), 4))
 
 
-def gen_rows(rng, ncols, nrows=None):
+def gen_rows(rng, ncols, nrows=None, is_int=False):
     n = rng.weighted([(0, 2), (1, 5), (2, 4), (3, 2)]) if nrows is None else nrows
+    if is_int:
+        return [[str(rng.randint(-8, 8)) for _ in range(ncols)] for _ in range(n)]
     return [[q(rng) for _ in range(ncols)] for _ in range(n)]
+
+
+def gen_extras(rng, ints_only):
+    """indices beyond the fixed dimensions: they index INTO the cell array (rows, then columns, then a scalar)"""
+    out = []
+    for lvl in range(rng.weighted([(1, 5), (2, 3), (3, 1), (4, 1)])):
+        kind = "i" if ints_only else rng.weighted([("i", 6), ("s", 2), ("l", 2)])
+        if kind == "i":
+            out.append({"i": rng.choice([0, 0, 1, 1, 2, -1, -2, 3, 5])})
+        elif kind == "s":
+            out.append({"s": [rng.choice([None, 0, 1, -1]), rng.choice([None, 1, 2, 5]), rng.choice([None, None, 1, 2, -1])]})
+        else:
+            out.append({"l": [rng.choice([0, 1, -1, 2, 4]) for _ in range(rng.randint(1, 2))], "np": rng.chance(0.4)})
+    return out
 
 
 def gen_ix(rng, d, valid):
@@ -790,6 +979,10 @@ def gen_ix(rng, d, valid):
 def gen_idx(rng, shape, valid, exact):
     nd = len(shape)
     n = nd
+    if nd == 0:
+        if not valid and exact and rng.chance(0.3):
+            return [{"i": 0}]
+        return []
     if not exact and rng.chance(0.25):
         n = rng.randint(1, nd)
     elif not valid and exact and rng.chance(0.2):
@@ -799,17 +992,16 @@ def gen_idx(rng, shape, valid, exact):
 
 
 class Gen:
-    def __init__(self, rng, w, max_dim):
+    def __init__(self, rng, w, max_dim, ctx=None):
         self.rng = rng
         self.w = w
         self.max_dim = max_dim
-        self.scale = 0          # running log2 scale of multiplications (keeps float arithmetic exact)
-        self.times3 = 0
+        self.ctx = ctx
 
     def pool_with(self, ncols):
         return [i for i, a in enumerate(self.w.pool) if isinstance(a, np.ndarray) and a.ndim == 2 and a.shape[1] == ncols]
 
-    def value(self, pre, ncols, good=True, in_list=False):
+    def value(self, pre, ncols, good=True, in_list=False, nrows=None):
         """a pool reference to a (good: matching) array, allocating when needed; returns the val json.
         A Python list as a bad value only makes sense as an ELEMENT of a value list."""
         rng = self.rng
@@ -819,11 +1011,39 @@ class Gen:
                 return {"bad": kind, "d1": ncols}
             ncols = rng.choice([ncols + 1, max(ncols - 1, 0)]) if ncols > 0 else 1
         cands = self.pool_with(ncols)
+        if nrows is not None:
+            cands = [i for i in cands if self.w.pool[i].shape[0] == nrows]
         npool = len(self.w.pool) + sum(1 for o in pre if o["op"] == "alloc")
         if cands and rng.chance(0.35):
             return {"p": rng.choice(cands)}
-        pre.append({"op": "alloc", "ncols": ncols, "rows": gen_rows(rng, ncols)})
+        is_int = rng.chance(0.25)
+        pre.append({"op": "alloc", "ncols": ncols, "rows": gen_rows(rng, ncols, nrows, is_int), "int": is_int})
         return {"p": npool}
+
+    def live_mats(self):
+        arrs = [a for a in self.w.pool if isinstance(a, np.ndarray)]
+        for v in self.w.vecs:
+            arrs += [c for c in flat_cells(v) if isinstance(c, np.ndarray)]
+        return mats_of(arrs)
+
+    def gate_field(self, vid, f, k, rhs, neg):
+        """exact simulation of the candidate on the live arrays: None = reject (division by zero, or a result that
+        float64 / int64 would not hold exactly); otherwise the expected outcome"""
+        v = self.w.vecs[vid]
+        if f not in v.fields:
+            return "KeyError"
+        rc, rj = None, None
+        if "w" in rhs:
+            u = self.w.vecs[rhs["w"]]
+            if rhs["wf"] not in u.fields:
+                return "KeyError"
+            rc, rj = flat_cells(u), list(u.fields).index(rhs["wf"])
+        mats = self.live_mats()
+        try:
+            e = sim_field_op(mats, flat_cells(v), list(v.fields).index(f), k, rhs, neg, rc, rj, strict=True)
+        except (ZeroDivisionError, OverflowError, Inexact):
+            return None
+        return (e or "ok") if exact_ok(mats) else None
 
     def fields(self, n):
         return self.rng.sample(NAMES, n)
@@ -832,7 +1052,7 @@ class Gen:
         rng = self.rng
         pre = []
         if rng.chance(0.6):
-            nd = rng.weighted([(1, 3), (2, 4), (3, 3)])
+            nd = rng.weighted([(1, 3), (2, 4), (3, 3), (0, 0.35)])
             shape = [rng.randint(1, self.max_dim) for _ in range(nd)]
             op = {"op": "from_shape", "shape": shape}
             nf = rng.weighted([(0, 1), (1, 3), (2, 4), (3, 3), (4, 1)])
@@ -856,7 +1076,7 @@ class Gen:
                     op["num_fields"] = nf + 1
                 elif m == "units":
                     op["units"] = ["m"] * (nf + 1)
-                elif m == "dim0":
+                elif m == "dim0" and nd:
                     op["shape"][rng.below(nd)] = rng.choice([0, -1])
                 elif m == "neither":
                     op.pop("fields", None)
@@ -880,7 +1100,8 @@ class Gen:
                 else:
                     items.append({"bad": kind, "d1": nf})
             elif rng.chance(0.3):
-                items.append({"lit": {"ncols": nf, "rows": gen_rows(rng, nf, rng.randint(1, 3))}})
+                li = rng.chance(0.35)
+                items.append({"lit": {"ncols": nf, "rows": gen_rows(rng, nf, rng.randint(1, 3), li), "int": li}})
             else:
                 items.append(self.value(pre, nf))
         op = {"op": "from_data", "items": items}
@@ -913,16 +1134,41 @@ class Gen:
         shape, fields = list(v.shape), list(v.fields)
         nf = len(fields)
         room = len(w.vecs) < 9
-        kind = rng.weighted([("setitem", 9), ("set_data", 5), ("getitem", 6 if room else 1), ("get_data", 4), ("field_op", 5),
+        kind = rng.weighted([("setitem", 9), ("set_data", 5), ("getitem", 6 if room else 1), ("get_data", 4), ("field_op", 4), ("field_op_gen", 5), ("field_get", 2),
                              ("set_flattened", 4), ("writeback", 2), ("add_fields", 2), ("remove_fields", 2),
                              ("copy", 2 if room else 0), ("meta_set", 2), ("set_data_attr", 1), ("assign_view", 2 if room else 0)])
         pre = []
         valid = rng.chance(0.85)
-        if kind in ("getitem", "get_data"):
+        if kind in ("getitem", "get_data", "field_get"):
             op = {"op": kind, "v": vid, "idx": gen_idx(rng, shape, valid, exact=(kind == "get_data"))}
-            if kind == "getitem" and len(op["idx"]) == 1:
+            if kind != "get_data" and rng.chance(0.15):
+                # more indices than fixed dimensions: mostly all-int cell address + indices INTO the cell array
+                if rng.chance(0.75):
+                    op["idx"] = [{"i": rng.randint(0, d - 1) if rng.chance(0.9) else rng.choice([-1, d])} for d in shape]
+                else:
+                    op["idx"] = gen_idx(rng, shape, True, exact=True)
+                op["idx"] = op["idx"] + gen_extras(rng, ints_only=False)
+            if kind == "field_get":
+                op["f"] = rng.choice(fields) if fields and rng.chance(0.9) else "nope"
+            if kind != "get_data" and len(op["idx"]) == 1:
                 op["bare"] = rng.chance(0.5)
             return [op]
+        if kind == "setitem" and rng.chance(0.08):
+            # more indices than fixed dimensions
+            if rng.chance(0.8):
+                idx = [{"i": rng.randint(0, d - 1) if rng.chance(0.9) else rng.choice([-1, d])} for d in shape] + gen_extras(rng, ints_only=True)
+                good = rng.chance(0.85)
+                val = {"one": self.value(pre, nf, good=good, nrows=1 if rng.chance(0.7) else None)} if rng.chance(0.9) else \
+                    {"many": [self.value(pre, nf, in_list=True)]}
+            else:   # multi-cell address: the surplus indices are dropped by zip()
+                idx = gen_idx(rng, shape, True, exact=True)
+                if not any("s" in ix or ("l" in ix and len(ix["l"]) > 1) for ix in idx) and idx:
+                    idx[-1] = {"s": [None, None, None]}
+                lists = [py_indices(ix, d) for ix, d in zip(idx, shape)]
+                total = int(np.prod([len(l) for l in lists])) if idx else 1
+                idx = idx + gen_extras(rng, ints_only=True)
+                val = {"many": [self.value(pre, nf, in_list=True) for _ in range(min(total, 30))]} if shape else {"one": self.value(pre, nf)}
+            return pre + [{"op": "setitem", "v": vid, "idx": idx, "val": val}]
         if kind in ("setitem", "set_data"):
             idx = gen_idx(rng, shape, valid, exact=(kind == "set_data"))
             full = idx + [{"s": [None, None, None]}] * (len(shape) - len(idx))
@@ -953,36 +1199,60 @@ class Gen:
             src = rng.below(len(w.vecs))
             u = w.vecs[src]
             sidx = gen_idx(rng, list(u.shape), True, exact=False)
-            if all("i" in ix for ix in sidx) and len(sidx) == len(u.shape):
+            if sidx and all("i" in ix for ix in sidx) and len(sidx) == len(u.shape):
                 sidx[0] = {"s": [None, None, None]}
             didx = gen_idx(rng, shape, True, exact=False)
-            if not any("s" in ix or ("l" in ix and len(ix["l"]) > 1) for ix in didx) and len(didx) == len(shape):
+            if didx and not any("s" in ix or ("l" in ix and len(ix["l"]) > 1) for ix in didx) and len(didx) == len(shape):
                 didx[-1] = {"s": [None, None, None]}
             newid = len(w.vecs)
             return [{"op": "getitem", "v": src, "idx": sidx}, {"op": "setitem", "v": vid, "idx": didx, "val": {"vec": newid}}]
-        if kind == "field_op":
+        if kind in ("field_op", "field_op_gen"):
             f = rng.choice(fields) if fields and (valid or rng.chance(0.5)) else "nope"
-            k = rng.weighted([("add", 4), ("sub", 3), ("mul", 3), ("div", 2), ("floordiv", 1), ("mod", 1)])
-            if k in ("add", "sub"):
-                c = Fraction(rng.randint(-12, 12), 4)
-            elif k in ("floordiv", "mod"):
-                c = Fraction(rng.choice([1, 2, 3, -2, 4, 6]), rng.choice([1, 2, 4]))
-            else:
-                opts = [(-1, 0)]
-                for e in (1, 2, -1, -2):
-                    ee = e if k == "mul" else -e
-                    if abs(self.scale + ee) <= 6:
-                        opts.append((Fraction(2) ** e, ee))
-                        opts.append((-(Fraction(2) ** e), ee))
-                if k == "mul" and self.times3 < 3:
-                    opts.append((Fraction(3), 0))
-                c, de = rng.choice(opts)
-                c = Fraction(c)
-                if c == 3 and f != "nope":
-                    self.times3 += 1
-                if f != "nope":
-                    self.scale += de
-            return [{"op": "field_op", "v": vid, "f": f, "k": k, "c": fstr(c), "via": rng.choice(["item", "item", "view"])}]
+            via = rng.choice(["item", "item", "view"])
+            for attempt in range(8):
+                k = rng.weighted([("add", 4), ("sub", 3), ("mul", 3), ("div", 2), ("floordiv", 1), ("mod", 1),
+                                  ("pow", 2 if kind == "field_op_gen" else 0)])
+                neg = False
+                shape_kind = "c" if kind == "field_op" else rng.weighted([("c", 3), ("arr", 4), ("w", 3)])
+                if k == "pow":
+                    shape_kind = "c" if rng.chance(0.8) else shape_kind
+                if shape_kind == "c":
+                    if k in ("add", "sub"):
+                        c = Fraction(rng.randint(-12, 12), 4)
+                    elif k in ("floordiv", "mod"):
+                        c = Fraction(rng.choice([1, 2, 3, -2, 4, 6]), rng.choice([1, 2, 4]))
+                    elif k == "pow":
+                        pc = [c for c in flat_cells(v) if isinstance(c, np.ndarray)]
+                        all_int = bool(pc) and all(c.dtype.kind == "i" for c in pc)
+                        c = Fraction(rng.choice([2, 2, 1, 0, -1] + ([3, -2, -1] if all_int else [])))
+                    else:
+                        c = Fraction(rng.choice([-1, 2, -2, 4, 3, Fraction(1, 2), Fraction(-1, 2), Fraction(1, 4), Fraction(3, 2)]))
+                    rhs = {"c": fstr(c), "c_int": c.denominator == 1 and (rng.chance(0.6) or (k == "pow" and c in (3, -2)))}
+                    neg = k == "pow" and rhs["c_int"] and c < 0
+                elif shape_kind == "arr":
+                    rowsn = [c.shape[0] for c in flat_cells(v) if isinstance(c, np.ndarray)]
+                    n = rng.choice(rowsn) if rowsn and rng.chance(0.8) else rng.choice([0, 1, 2, 3])
+                    if rng.chance(0.25):
+                        n = 1
+                    pick = (lambda: Fraction(rng.choice([1, 2, -1, 3, -2, 4]))) if k in ("div", "floordiv", "mod", "pow") else \
+                        (lambda: Fraction(rng.randint(-12, 12), 4))
+                    rhs = {"arr": [fstr(pick() if k != "pow" else Fraction(rng.choice([0, 1, 2, 3]))) for _ in range(n)]}
+                else:
+                    wv = vid if rng.chance(0.6) else rng.below(len(w.vecs))
+                    wf = list(w.vecs[wv].fields)
+                    rhs = {"w": wv, "wf": rng.choice(wf) if wf and rng.chance(0.92) else "nope"}
+                if kind == "field_op":
+                    exp = self.gate_field(vid, f, k, {"c": rhs["c"]}, False)
+                    if exp is None:
+                        continue
+                    return [{"op": "field_op", "v": vid, "f": f, "k": k, "c": rhs["c"], "via": via}]
+                exp = self.gate_field(vid, f, k, rhs, neg)
+                if exp is None:
+                    if self.ctx is not None:
+                        self.ctx.dist["rejected:field-op-not-exact-or-div0"] += 1
+                    continue
+                return [{"op": "field_op_gen", "v": vid, "f": f, "k": k, "rhs": rhs, "neg_int_pow": neg, "via": via, "expect": exp}]
+            return [{"op": "field_op", "v": vid, "f": f, "k": "add", "c": "0", "via": via}]
         if kind == "set_flattened":
             f = rng.choice(fields) if fields and (valid or rng.chance(0.5)) else "nope"
             total = sum(c.shape[0] for c in flat_cells(v) if isinstance(c, np.ndarray))
@@ -1019,7 +1289,7 @@ class Gen:
         # set_data_attr:  v.data = nested list
         lens = list(shape)
         mode = rng.weighted([("ok", 6), ("shallow", 2), ("len", 1), ("baditem", 2)]) if len(shape) > 1 else \
-            rng.weighted([("ok", 6), ("len", 1), ("baditem", 2)])
+            rng.weighted([("ok", 6), ("len", 1 if shape else 0), ("baditem", 2)])
         if mode == "shallow":
             lens = lens[:1]       # [arr, arr, …] given to a vector with more than one fixed dimension
         elif mode == "len":
@@ -1137,7 +1407,7 @@ def run(ctx):
             max_dim = 4 if (ctx.thorough() and rng.chance(0.2)) else 3
 
             def it(w, rng=rng, nops=nops, max_dim=max_dim):
-                g = Gen(rng, w, max_dim)
+                g = Gen(rng, w, max_dim, ctx)
                 n = 0
                 while n < nops:
                     for op in g.ops():
